@@ -3,6 +3,7 @@
 .type f6_0,@function
 f6_0:
   ret
+  mov wvsv0(%rip),%rax
   ret
 .section .text.f6_1,"ax",@progbits
 .globl f6_1
@@ -10,4 +11,7 @@ f6_0:
 f6_1:
   ret
   call f19_1
+  mov wvsv0@GOTPCREL(%rip),%rax
+  mov wvsv1@GOTPCREL(%rip),%rax
+  mov wvsv2@GOTPCREL(%rip),%rax
   ret
